@@ -470,6 +470,18 @@ Plan gen_c13(uint64_t seed, bool th) {
   if (g.r.pct(45)) g.p.cfg["lim.rules"] = std::to_string(g.r.range(1, 4));
   if (g.r.pct(45)) g.p.cfg["lim.replies"] = std::to_string(g.r.range(1, 3));
   if (g.r.pct(30)) g.p.cfg["lim.msgsize"] = std::to_string(g.r.range(300, 2000));
+  // in some plans the configuration is reloaded once with other limits (raised, lowered, removed, newly set):
+  // refusals follow the limits in force, what is already held stays
+  bool reload = g.r.pct(30);
+  if (reload) {
+    g.p.cfg["reload"] = "1";
+    for (const char *k : {"names", "rules", "replies", "completed", "per_user"})
+      if (g.r.pct(50)) g.p.cfg[std::string("reload.lim.") + k] = g.r.pct(15) ? std::string("-1") : std::to_string(g.r.range(1, 6));
+    // limits the second file does not mention keep their first value (the same element is written again)
+    for (const char *k : {"names", "rules", "replies", "completed", "per_user"})
+      if (!g.p.cfg.count(std::string("reload.lim.") + k) && g.p.cfg.count(std::string("lim.") + k)) g.p.cfg[std::string("reload.lim.") + k] = g.p.cfg[std::string("lim.") + k];
+  }
+  bool reloaded = false;
   g.sh.uids = {0, 1000, 1001};
   if (g.r.pct(50)) g.sh.uids = {1000, 1000, 1001};
   int next = 0;
@@ -488,7 +500,8 @@ Plan gen_c13(uint64_t seed, bool th) {
   for (int i = 0; i < nops; i++) {
     int c = g.a_client();
     int x = (int)g.r.below(100);
-    if (x < 14) connect(g.r.pct(80));
+    if (reload && !reloaded && (g.r.pct(8) || i == nops / 2)) { g.add(g.mk("query", c, {-1}, {"ReloadConfig", ""})); reloaded = true; }
+    else if (x < 14) connect(g.r.pct(80));
     else if (x < 22) g.add(g.mk("hello", c, {-1}));                         // retry after a refused Hello (or a second Hello)
     else if (x < 32) g.add(g.mk("close", c));
     else if (x < 47) g.add(g.mk("reqname", c, {(int64_t)g.r.below(8), -1}, {g.a_name()}));
@@ -766,6 +779,7 @@ Plan gen_c06(uint64_t seed, bool th) {
   base_shape(g, 3, th ? 6 : 5);
   g.sh.names.clear();
   for (int i = 0; i < 3; i++) g.sh.names.push_back(kPolNames[g.r.below(4)]);
+  auto make_policy = [&]() {
   pol::Policy p;
   {
     pol::Block b;
@@ -826,14 +840,23 @@ Plan gen_c06(uint64_t seed, bool th) {
     else { r.min_fds = 0; }
     p.blocks[g.r.below(p.blocks.size())].rules.push_back(r);
   }
-  g.p.cfg["policy.spec"] = pol::encode(p);
+  return p;
+  };
+  g.p.cfg["policy.spec"] = pol::encode(make_policy());
+  // in some plans the configuration is reloaded once with another policy: every decision after the reload follows
+  // the new rules, for the connections that exist (their policies are re-created) and for new ones
+  bool reload = g.r.pct(25), reloaded = false;
+  if (reload) { g.p.cfg["reload"] = "1"; g.p.cfg["reload.policy.spec"] = pol::encode(make_policy()); }
   g.connect_all(false, g.r.pct(50));
   if (g.r.pct(40)) g.add(g.mk("addmatch", g.a_client(), {-1}, {"eavesdrop='true'"}));
   int nops = (int)g.r.range(8, th ? 70 : 30);
   for (int i = 0; i < nops; i++) {
     int c = g.a_client();
     int x = (int)g.r.below(100);
-    if (x < 18) {
+    if (reload && !reloaded && (g.r.pct(10) || i == nops / 2)) {
+      g.add(g.mk("query", c, {-1}, {"ReloadConfig", ""}));
+      reloaded = true;
+    } else if (x < 18) {
       g.add(g.mk("reqname", c, {(int64_t)g.r.below(8), -1}, {g.r.pct(80) ? g.a_name() : "com.example.a.b.c"}));
     } else if (x < 22) {
       g.add(g.mk("relname", c, {-1}, {g.a_name()}));
